@@ -506,7 +506,7 @@ func (s *Sim) Step(t *rapid.T) {
 			return
 		}
 		kind := rapid.SampledFrom([]string{"all", "all", "votes", "prevotes", "precommits", "proposal", "parts"}).Draw(t, "kind")
-		off := filterMsgs(Offers(s.Nodes[j], s.Nodes[i]), kind)
+		off := filterMsgs(s.OffersOf(j, i), kind)
 		if len(off) == 0 {
 			return
 		}
@@ -527,7 +527,7 @@ func (s *Sim) Step(t *rapid.T) {
 				if i == j {
 					continue
 				}
-				for _, m := range filterMsgs(Offers(s.Nodes[j], s.Nodes[i]), kind) {
+				for _, m := range filterMsgs(s.OffersOf(j, i), kind) {
 					s.send(i, j, m)
 				}
 			}
@@ -850,7 +850,7 @@ func (s *Sim) relayKind(kind string, targets, from []int) {
 			if i == j || s.down(j) {
 				continue
 			}
-			for _, m := range filterMsgs(Offers(s.Nodes[j], s.Nodes[i]), kind) {
+			for _, m := range filterMsgs(s.OffersOf(j, i), kind) {
 				s.send(i, j, m)
 			}
 		}
@@ -1421,7 +1421,7 @@ func (s *Sim) relayVotes(to, from []int, typ kproto.SignedMsgType, round uint32)
 			if i == j || s.down(i) || s.down(j) {
 				continue
 			}
-			for _, m := range Offers(s.Nodes[j], s.Nodes[i]) {
+			for _, m := range s.OffersOf(j, i) {
 				if vm, ok := m.(*consensus.VoteMessage); ok && vm.Vote.Type == typ && vm.Vote.Round == round {
 					s.send(i, j, m)
 				}
